@@ -29,10 +29,39 @@ makes the schedules as adversarial as it can:
     groups (single finisher and racing finishers), shared and per-worker
     algorithm objects, staggered and barrier-released starts.
 
+  * a second grid varies the *inputs* of the loop on the same layouts: group
+    ids of every documented kind (ints from 0, the empty string, non-positive
+    ints, ints and strings mixed), fewer requested trials than workers or
+    groups (0, 1, W-1), finishers that call done() before a measurement exists
+    and then finish properly, finishers that repeat done/skip/add_measurement
+    on the trial they have finished, a hyper value as search space.
+
 At quiescence the invariants of the statement are checked on
 `pg.poll_result(name)`, the probe's log and the per-worker logs.  Every run
 uses a unique study name.  A failure found by sampling is definite; absence of
 failures is only evidence.
+
+Two further drivers use DETERMINISTIC schedules (barriers between the steps of
+the workers), for what does not depend on luck:
+
+  * `drv_lockstep_groups`: in every round all workers ask for their trial, then
+    one co-worker of each group finishes it (or nobody does: the same pending
+    trial must be handed out again).  Varies the values used as group ids (10
+    pools: falsy ids, big ints, ids that differ in case / blanks / sign only),
+    co-workers per group, groups, workers without group, N (ample, exact,
+    short, 1, 0), reward signs (0.0 as the maximum), study names, DNASpec or
+    hyper value, explicit backend name, leaving and re-entering the loop,
+    measurement by one co-worker and done() by another (also after a too
+    early done()).
+  * `drv_finish_sequences`: every order of feedback operations of length <= 3
+    (thorough: 4) on one trial -- add_measurement, done, skip, invalid
+    add_measurement, feedback(reward), exception under skip_on_exceptions --
+    followed by a proper finish, by one worker or alternately by two
+    co-workers.  After every operation the trial must be in the state the
+    statement allows (done() without a measurement has nothing to report, so
+    it cannot complete the trial; a refused operation changes nothing; after
+    completion nothing changes); after the sequence the feedback log, the
+    counts of the result and the best trial are checked.
 """
 import ast
 import itertools
@@ -234,6 +263,8 @@ _STUCK_SECS = 2.0
 def _reward(cfg, tid):
   if cfg['rewards'] == 'increasing':
     return float(tid)      # every completion improves on the best so far
+  if cfg['rewards'] == 'decreasing':
+    return float(1000 - tid)   # the first trial stays the best: a later one must never replace it
   base = float((tid * 7 + cfg['salt']) % 5)
   if cfg['rewards'] == 'negative':
     return -1.0 - base     # an infeasible trial (reward 0.0) would look best
@@ -817,13 +848,19 @@ def _pressure(seed):
            salt=seed + 2),
       dict(base, W=8, N=24, layout='none', actions=('done',), algo='evo-keep-all', trace=False,
            salt=seed + 3),
+      # One round only, the first trial is the best (with increasing rewards
+      # "the last completion wins" looks right; here it does not).  Cheap: run
+      # more often, see _scenarios.
+      dict(base, W=8, N=8, layout='none', actions=('done',), algo='random', trace=False,
+           salt=seed + 4, rewards='decreasing'),
   ]
 
 
 def _scenarios(tier, seed):
   """Yields (cfg, repeats): pressure scenarios, then the two grids interleaved."""
   for cfg in _pressure(seed):
-    yield cfg, (5 if tier == 'quick' else 8)
+    many = cfg['rewards'] == 'decreasing'
+    yield cfg, ((12 if many else 5) if tier == 'quick' else (30 if many else 8))
   g1, g2 = _grid1(tier, seed), _grid2(tier, seed)
   while g1 is not None or g2 is not None:
     for which in (1, 2):
@@ -974,10 +1011,15 @@ def drv_concurrent_sampling(tier, seed):
              'algorithms Random(seed), regularized_evolution, an Evolution that keeps its whole population, '
              'Deduping(hill_climb, auto_reward_fn); '
              'shared (set up beforehand) or one per worker; staggered and barrier-released starts; optional '
-             'rendezvous so that all workers finish their trials at the same moment; 4 such pressure '
-             'scenarios always (5 resp. 8 runs each); '
+             'rendezvous so that all workers finish their trials at the same moment; 5 such pressure '
+             'scenarios always (5 resp. 8 runs each; 12 resp. 30 of the one with decreasing rewards); '
              + (f'quick: 1 run of every {_QUICK_STRIDE}th scenario of the grid W x mix x layout (offset by seed)'
                 if tier == 'quick' else 'thorough: 2 runs of every scenario of the grid')
+             + f'; second grid W in (2,3,4,5,6,8) x layout x feature (group ids 0 / empty string / '
+             'non-positive / mixed int and str; N in 0, 1, W-1, groups-1; too early done() then proper '
+             'finish, repeated done/skip/add_measurement after the finish; sometimes a hyper value as '
+             'space): '
+             + (f'quick: 1 run of every {_QUICK_STRIDE2}th' if tier == 'quick' else 'thorough: 2 runs of each')
              + '; invariants checked at quiescence on pg.poll_result, the probe log and per-worker '
              'logs. A failure is definite; absence of failures is evidence only.'))
   old = sys.getswitchinterval()
